@@ -382,7 +382,7 @@ func clip(s string) string {
 
 func check(r *core.Run) {
 	k, cliEvery := 3, 60
-	cfgs := []string{"aug_quick", "dev2", "dev3", "uses_quick"}
+	cfgs := []string{"aug_quick", "aug_late", "dev2", "dev3", "uses_quick"}
 	if r.Tier == "thorough" {
 		k, cliEvery = 8, 10
 		cfgs = append(cfgs, "aug_sub", "aug_two", "cfg", "split", "uses", "dev1")
